@@ -90,6 +90,23 @@ theorem mapM'_ok_length {f : α → Res β} {l : List α} {r : List β} (h : Res
   unfold Res.mapM' at h
   simpa using sequence_ok_length h
 
+set_option hygiene false in
+/-- invert `h : … = .ok r` through every `if` / `match` / `>>=` layer (robust against added validation arms) -/
+macro "res_inv" : tactic => `(tactic|
+  repeat' (first
+    | (obtain ⟨_, _, h⟩ := bind_ok_inv h)
+    | (dsimp only at h; split at h)
+    | split at h))
+
+set_option hygiene false in
+/-- close the leaves left by `res_inv`: refusals are impossible, the funnels give well-formedness -/
+macro "wf_close" : tactic => `(tactic|
+  all_goals first
+    | (cases h; done)
+    | exact new_ok_wf h
+    | exact reshape_wf h
+    | (cases h; exact flat_wf _))
+
 /-- `Res.idx` answers with a member -/
 theorem idx_ok_mem {l : List α} {i : Nat} {a : α} (h : Res.idx l i = .ok a) : a ∈ l := by
   unfold Res.idx at h
